@@ -2,7 +2,7 @@ SPECIFICATION Spec
 CONSTANTS
   M = 4
   MaxMsg = 2
-  RWs = {2}
+  RWs = {1}
   Lens = {1}
   ConnMius = {2}
   LinkMius = {16}
